@@ -1,5 +1,5 @@
 /* LD_PRELOAD interposer for getentropy(3), used to inject the entropy the real binary sees
- * (C12, C18).  HDW_SHIM_STREAM: comma separated hex strings, one per call; "fail" = return -1.
+ * (C12, C18).  HDW_SHIM_STREAM: comma separated hex strings, one per call; "fail" = return -1 with errno EIO, "failN" = return -1 with errno N.
  * Calls beyond the end of the stream fail.  HDW_SHIM_LOG: file to which "<len>\n" is appended
  * for every call.  HDW_SHIM_REPEAT=1: after the stream is exhausted, pseudo-random bytes from a
  * counter-keyed xorshift are returned instead of failing (for searches of unknown length). */
@@ -54,7 +54,12 @@ int getentropy(void *buffer, size_t len) {
         errno = EIO;
         return -1;
     }
-    if (strncmp(p, "fail", 4) == 0) { errno = EIO; return -1; }
+    if (strncmp(p, "fail", 4) == 0) {
+        /* "fail" = EIO, "failN" = errno N */
+        int n = atoi(p + 4);
+        errno = n > 0 ? n : EIO;
+        return -1;
+    }
     unsigned char *b = buffer;
     for (size_t i = 0; i < len; i++) {
         int h = hexval(p[2 * i]);
